@@ -72,9 +72,10 @@ def stmts_of(block):
     if b[0] != 'block': return [], b
     return list(b[1]), b[2]
 
-def drop_prog(src):
+def drop_prog(src, body=None):
     r = src.find_fn('arc.rs', 'Arc::drop_inner')
     if not r: return ['IUnknown']
+    if body is not None: return drop_prog_nested(src, body)
     out = []; env = {}
     try:
         st, tail = stmts_of(fn_body(r[2]))
@@ -120,12 +121,12 @@ def is_err_this(b):
     b = strip(b)
     return b[0] == 'call' and (call_path(b) or '') == 'Err' and len(b[2]) == 1 and is_path(strip(b[2][0]), 'this')
 
-def uniq_prog(src):
+def uniq_prog(src, body=None):
     r = src.find_fn('arc.rs', 'Arc::try_unique')
     if not r: return ['IUnknown']
     out = []; env = {}
     try:
-        st, tail = stmts_of(fn_body(r[2]))
+        st, tail = stmts_of(fn_body(r[2]) if body is None else body)
         for s in st:
             if s[0] == 'let':
                 name = s[1].strip(); init = s[3]
@@ -155,19 +156,19 @@ def mentions(e, pred):
     if isinstance(e, list): return any(mentions(x, pred) for x in e)
     return False
 
-def uoc_prog(src):
+def uoc_prog(src, body=None):
     r = src.find_fn('arc.rs', 'Arc::unwrap_or_clone')
     if not r: return ['IUnknown']
     out = []
     try:
-        b = fn_body(r[2])
+        b = fn_body(r[2]) if body is None else (body if body[0] == 'block' else ('block', [], body))
         if b[1] or b[2] is None: raise Unk()
         e = strip(b[2])
         if not (e[0] == 'mcall' and e[2] == 'unwrap_or_else' and len(e[4]) == 1): raise Unk()
         head = strip(e[1])
-        if not (head[0] == 'call' and (call_path(head) or '').endswith('try_unwrap')): raise Unk()
+        if not ((head[0] == 'call' and (call_path(head) or '').endswith('try_unwrap')) or (head[0] == 'mcall' and head[2] == 'try_unwrap' and not head[4])): raise Unk()
         cl = strip(e[4][0])
-        if cl[0] != 'closure' or cl[1] != ['this']: raise Unk()
+        if cl[0] != 'closure' or len(cl[1]) != 1 or not re.match(r'^[a-z_][A-Za-z0-9_]*$', cl[1][0].strip()): raise Unk()
         def is_clone(x):
             x = strip(x)
             return (x[0] == 'call' and (call_path(x) or '') in ('T::clone', 'Clone::clone') and len(x[2]) == 1) or \
@@ -194,8 +195,61 @@ def uoc_prog(src):
         return out + ['IUnknown']
     return out
 
+def drop_prog_nested(src, body):
+    """the drop protocol read off the NORMALISED body (tools/canon.py: early returns turned into nested ifs, single-use
+    lets inlined): a sequence of counter accesses, `if <counter test> { rest }` as the last thing of a sequence (return
+    unless the test holds), and `self.drop_slow()`"""
+    out = []
+    def walk_seq(items):
+        for idx, s in enumerate(items):
+            last = idx == len(items) - 1
+            if s[0] == 'let' and s[3] is not None and s[2] is None and isinstance(s[1], str) and re.match(r'^[a-z_][A-Za-z0-9_]*$', s[1].strip()):
+                k, o = atomic_of(s[3], src); out.append('%s %s true' % (k, o)); env[s[1].strip()] = 'reg'; continue
+            if s[0] != 'expr': raise Unk()
+            e = strip(s[1])
+            if e[0] == 'block':
+                if not last: raise Unk()
+                st, tail = stmts_of(e); walk_seq(st + ([('expr', tail)] if tail is not None else [])); continue
+            if e[0] == 'if':
+                if e[3] is not None or not last: raise Unk()
+                c = strip(e[1])
+                if c[0] == 'binary' and c[1] in ('==', '!=') and strip(c[2])[0] == 'path' and len(strip(c[2])[1]) == 1 \
+                        and env.get(strip(c[2])[1][0]) == 'reg' and strip(c[3])[0] == 'lit':
+                    n = int(strip(c[3])[1].replace('_', ''), 0); pos = c[1] == '=='
+                else:
+                    ins, n, pos = cond_of(c, src, {}); out.extend(ins)
+                out.append('IRetIfNe %d' % n if pos else 'IRetIfEq %d' % n)
+                st, tail = stmts_of(e[2]); walk_seq(st + ([('expr', tail)] if tail is not None else []))
+            elif e[0] == 'mcall' and e[2] == 'drop_slow' and is_path(strip(e[1]), 'self'):
+                out.append('IDestroyFree')
+            else:
+                k, o = atomic_of(e, src); out.append('%s %s false' % (k, o))
+    env = {}
+    try:
+        st, tail = stmts_of(body)
+        walk_seq(st + ([('expr', tail)] if tail is not None else []))
+    except (Unk, IndexError, TypeError, ValueError):
+        return out + ['IUnknown']
+    return out
+
 def extract_count_progs(src):
-    return dict(drop=drop_prog(src), uniq=uniq_prog(src), uoc=uoc_prog(src))
+    """each program is read off the body as written; when that fails, off the body's normal form (tools/canon.py), so
+    that a rewrite which cannot change behaviour does not change the program"""
+    res = dict(drop=drop_prog(src), uniq=uniq_prog(src), uoc=uoc_prog(src))
+    fns = dict(drop='Arc::drop_inner', uniq='Arc::try_unique', uoc='Arc::unwrap_or_clone')
+    for k, f in (('drop', drop_prog), ('uniq', uniq_prog), ('uoc', uoc_prog)):
+        if 'IUnknown' in res[k]:
+            r = src.find_fn('arc.rs', fns[k])
+            if not r: continue
+            try:
+                import canon
+                nb = canon.normalise(fn_body(r[2]), ('Self', 'Arc'))
+                if not (isinstance(nb, tuple) and nb and nb[0] == 'block'): nb = ('block', [], nb)
+                alt = f(src, nb)
+                if 'IUnknown' not in alt: res[k] = alt
+            except Exception:
+                pass
+    return res
 
 GOOD = dict(drop=['IDec ORel true', 'IRetIfNe 1', 'ILoad OAcq false', 'IDestroyFree'],
             uniq=['ILoad OAcq true', 'IRetIfNe 1', 'IGrant'],
